@@ -157,6 +157,9 @@ func FindArrayIndex(str string) ([][]int, error) {
 			}
 		}
 	}
+	if len(stack) != 0 {
+		return nil, fmt.Errorf("unbalanced brackets: %d not closed", len(stack))
+	}
 	return output, nil
 }
 
@@ -164,7 +167,7 @@ func FixIdiomaticArray(input string) (string, error) {
 	const _TOKEN = "ARRAY"
 	indexes, err := FindArrayIndex(input)
 	if err != nil {
-		panic(err)
+		return "", err
 	}
 	offset := 0
 	for _, index := range indexes {
